@@ -2493,7 +2493,8 @@ class SSHConnection(SSHPacketHandler, asyncio.Protocol):
         self.logger.debug1('Completed key exchange')
 
     def _process_userauth_request(self, _pkttype: int, _pktid: int,
-                                  packet: SSHPacket) -> None:
+                                  packet: SSHPacket) -> \
+            Optional[Awaitable[None]]:
         """Process a user authentication request"""
 
         username_bytes = packet.get_string()
@@ -2519,6 +2520,13 @@ class SSHConnection(SSHPacketHandler, asyncio.Protocol):
             if self._auth_final:
                 raise ProtocolError('Unexpected userauth request')
         else:
+            # Abandon any previous auth attempt which is still in progress
+            # before switching to this request, so that a late result from
+            # it can't be reported against the user named here
+            if self._auth:
+                self._auth.cancel()
+                self._auth = None
+
             if username != self._username:
                 self.logger.info('Beginning auth for user %s', username)
 
@@ -2527,7 +2535,12 @@ class SSHConnection(SSHPacketHandler, asyncio.Protocol):
             else:
                 begin_auth = False
 
-            self.create_task(self._finish_userauth(begin_auth, method, packet))
+            # Finish processing this request before looking at any request
+            # pipelined behind it, as the username must not change while
+            # begin_auth() is running
+            return self._finish_userauth(begin_auth, method, packet)
+
+        return None
 
     async def _finish_userauth(self, begin_auth: bool, method: bytes,
                                packet: SSHPacket) -> None:
